@@ -111,3 +111,9 @@ Require Import GM.model.HeadingOpts GM.model.HeadingOptsI GM.proofs.HeadingOptsW
 Theorem C01_convert_heading_options_total : forall hc c src, bytes_ok src -> exists o, ConvertModelH hc c src = Ok o.
 Proof. exact ConvertModelH_total. Qed.
 Print Assumptions C01_convert_heading_options_total.
+
+(* and with extension.Typographer / extension.DefinitionList (model/TypoDefI.v; both switches) *)
+Require Import GM.model.TypoDefParse GM.model.TypoDefI GM.proofs.TypoDefWf.
+Theorem C01_convert_typodef_model_total : forall tc c src, bytes_ok src -> exists o, ConvertModelTD tc c src = Ok o.
+Proof. exact ConvertModelTD_total. Qed.
+Print Assumptions C01_convert_typodef_model_total.
